@@ -669,6 +669,12 @@ func checkNesting(r *ev.Run, parent []int, axis, dir, corner int, tall bool) {
 	if tall {
 		zmax = 48
 	}
+	mapped := make([][]*model3d.MeshHierarchy, len(hierarchyMaps))
+	for mi, mp := range hierarchyMaps {
+		for _, h := range hs {
+			mapped[mi] = append(mapped[mi], h.MapCoords(mp.f))
+		}
+	}
 	for x := 0.13; x < 8; x += 0.37 {
 		for y := 0.21; y < 8; y += 0.37 {
 			for z := 0.17; z < zmax; z += zmax / 21 {
@@ -700,7 +706,34 @@ func checkNesting(r *ev.Run, parent []int, axis, dir, corner int, tall bool) {
 					viol("MeshHierarchy/Contains", fmt.Sprintf("point %v is inside %d components, hierarchy says contained=%v", p, cnt, in))
 					return
 				}
+				// the hierarchy carried along by a coordinate map (mirror, half turn, point reflection: the order of
+				// siblings along any fixed axis is reversed): the image of p is classified like p
+				for mi, mp := range hierarchyMaps {
+					in := false
+					for _, h := range mapped[mi] {
+						if h.Contains(mp.f(p)) {
+							in = true
+						}
+					}
+					if in != (cnt%2 == 1) {
+						viol("MeshHierarchy/MapCoords", fmt.Sprintf("hierarchy mapped by %s: the image %v of a point inside %d components is classified contained=%v", mp.name, mp.f(p), cnt, in))
+						return
+					}
+				}
 			}
+		}
+	}
+	for mi, mp := range hierarchyMaps {
+		var full []tri
+		for _, h := range mapped[mi] {
+			full = append(full, trisOf(h.FullMesh())...)
+		}
+		var want []tri
+		for _, t := range all {
+			want = append(want, tri{mp.f(t[0]), mp.f(t[1]), mp.f(t[2])})
+		}
+		if !sameFaces(full, want) {
+			viol("MeshHierarchy/MapCoords", fmt.Sprintf("hierarchy mapped by %s: FullMesh is not the mapped input mesh", mp.name))
 		}
 	}
 	// normal repair on the nested mesh: every component flipped wholesale in every pattern
@@ -736,6 +769,16 @@ func checkNesting(r *ev.Run, parent []int, axis, dir, corner int, tall bool) {
 	if len(boxes) > 1 {
 		r.NontrivialKey(c.Mesh)
 	}
+}
+
+var hierarchyMaps = []struct {
+	name string
+	f    func(c3) c3
+}{
+	{"mirror x -> 9 - x", func(c c3) c3 { return model3d.XYZ(9-c.X, c.Y, c.Z) }},
+	{"half turn about z", func(c c3) c3 { return model3d.XYZ(9-c.X, 7-c.Y, c.Z) }},
+	{"point reflection", func(c c3) c3 { return model3d.XYZ(-c.X, -c.Y, -c.Z) }},
+	{"axes permuted", func(c c3) c3 { return model3d.XYZ(c.Z, c.X, c.Y) }},
 }
 
 // ---------------------------------------------------------------- 2D
@@ -879,10 +922,29 @@ func checkNesting2D(r *ev.Run, parent []int, axis, dir, corner int) {
 	if nodes != len(sqs) || nseg != len(all) {
 		viol("2d/MeshToHierarchy/faces", fmt.Sprintf("%d nodes / %d segments for %d components / %d segments", nodes, nseg, len(sqs), len(all)))
 	}
+	maps2 := []struct {
+		name string
+		f    func(model2d.Coord) model2d.Coord
+	}{{"mirror x -> 9 - x", func(c model2d.Coord) model2d.Coord { return model2d.XY(9-c.X, c.Y) }}, {"half turn", func(c model2d.Coord) model2d.Coord { return model2d.XY(9-c.X, 7-c.Y) }}, {"axes swapped", func(c model2d.Coord) model2d.Coord { return model2d.XY(c.Y, c.X) }}}
+	mapped2 := map[string][]*model2d.MeshHierarchy{}
+	for _, mp := range maps2 {
+		for _, h := range hs {
+			mapped2[mp.name] = append(mapped2[mp.name], h.MapCoords(mp.f))
+		}
+	}
 	for x := 0.13; x < 8; x += 0.19 {
 		for y := 0.21; y < 8; y += 0.19 {
 			p := model2d.XY(x, y)
 			cnt := 0
+			onEdge := false
+			for _, s := range sqs {
+				if math.Abs(p.X-s.min.X) < 1e-9 || math.Abs(p.X-s.max.X) < 1e-9 || math.Abs(p.Y-s.min.Y) < 1e-9 || math.Abs(p.Y-s.max.Y) < 1e-9 {
+					onEdge = true // on the line of a side: membership of outline points is not defined
+				}
+			}
+			if onEdge {
+				continue
+			}
 			for _, s := range sqs {
 				if p.X > s.min.X && p.Y > s.min.Y && p.X < s.max.X && p.Y < s.max.Y {
 					cnt++
@@ -897,6 +959,19 @@ func checkNesting2D(r *ev.Run, parent []int, axis, dir, corner int) {
 			if in != (cnt%2 == 1) {
 				viol("2d/MeshHierarchy/Contains", fmt.Sprintf("point %v inside %d components, hierarchy says %v", p, cnt, in))
 				return
+			}
+			// carried along by a mirror and a half turn: the image of p is classified like p
+			for _, mp := range maps2 {
+				in2 := false
+				for _, h := range mapped2[mp.name] {
+					if h.Contains(mp.f(p)) {
+						in2 = true
+					}
+				}
+				if in2 != (cnt%2 == 1) {
+					viol("2d/MeshHierarchy/MapCoords", fmt.Sprintf("hierarchy mapped by %s: image of a point inside %d components classified %v", mp.name, cnt, in2))
+					return
+				}
 			}
 		}
 	}
